@@ -162,10 +162,15 @@ def one_lookup(ctx, mi, src, loc, exists):
     try:
         tree = ast_parse(src, skip_docstring_remit=True)
         got = find_in_ast(list(path), tree)
+        # ... and parsed the way sync / sync_properties parse a file (docstring re-indentation on): the same node
+        got_default = find_in_ast(list(path), ast_parse(src))
     except Exception as e:
         ctx.report_exception(e, base, replay, stage="find")
         return
     ctx.event("find_in_ast")
+    if node_id(got_default) != node_id(got):
+        ctx.report(dict(base, field="lookup", tag="differs_with_docstring_reindentation", expected=str(node_id(got)), observed=str(node_id(got_default)),
+                        param=".".join(path)), replay)
     rid, gid = node_id(ref), node_id(got)
     if rid != gid:
         tag = "not_found" if got is None else ("found_nonexistent" if ref is None else "wrong_node")
